@@ -7,6 +7,7 @@ pub mod common;
 pub mod c14;
 pub mod c13;
 pub mod c15;
+pub mod c06;
 pub mod smoke;
 pub mod c01;
 pub mod c02;
@@ -34,6 +35,7 @@ pub fn plan(id: &str, tier: &str) -> Option<Plan> {
         "C14" => Some(Plan::new(if _t { 16 } else { 6 }, 900)),
         "C13" => Some(Plan::new(if _t { 32 } else { 12 }, 1500)),
         "C15" => Some(Plan::new(if _t { 32 } else { 12 }, 1500)),
+        "C06" => Some(Plan::new(if _t { 40 } else { 12 }, 1500)),
         _ => None,
     }
 }
@@ -46,6 +48,7 @@ pub fn spec(id: &str) -> Option<Spec> {
         "C14" => Some(c14::spec()),
         "C13" => Some(c13::spec()),
         "C15" => Some(c15::spec()),
+        "C06" => Some(c06::spec()),
         _ => None,
     }
 }
@@ -58,6 +61,7 @@ pub fn worker(ctx: &WorkerCtx) -> WorkerReport {
         "C14" => c14::worker(ctx),
         "C13" => c13::worker(ctx),
         "C15" => c15::worker(ctx),
+        "C06" => c06::worker(ctx),
         other => {
             let mut r = WorkerReport::default();
             r.inconclusive(format!("no worker for {}", other));
